@@ -14,6 +14,7 @@ import Driver.KvLin
 import Driver.Monitors
 import Driver.WaitTrace
 import Driver.LruTrace
+import Driver.PoolTrace
 
 def main (args : List String) : IO UInt32 := do
   match args with
@@ -32,4 +33,5 @@ def main (args : List String) : IO UInt32 := do
   | ["monitors"] => Drv.run DrvMonitors.comp
   | ["waittrace"] => Drv.run DrvWaitTrace.comp
   | ["lrutrace"] => Drv.run DrvLruTrace.comp
+  | ["pooltrace"] => Drv.run DrvPoolTrace.comp
   | _ => IO.eprintln "usage: driver <component>"; return 2
